@@ -17,6 +17,7 @@ package c05
 
 import (
 	"bytes"
+	"encoding/binary"
 	"encoding/hex"
 	"fmt"
 
@@ -130,12 +131,30 @@ func checkSurplus(c surplusCase) error {
 		what := "other octets"
 		if len(got) < len(all) && bytes.Equal(got, all[:len(got)]) {
 			what = fmt.Sprintf("the first %d, the last %d are dropped silently", len(got), len(all)-len(got))
+		} else if !canonicalRdata(buf[:ref.End], r, all) {
+			// The octets spelled are no canonical RDATA of the type (a type bit map with a trailing zero
+			// octet, a field cut short that the decoder pads ...) and the library re-encodes what it
+			// understood: the decoders' tolerance, the same from the wire (C01 / C20), not this property.
+			pbt.Class("accepted-noncanonical-rdata")
+			return nil
 		}
 		return pbt.Errf("%s: the generic form spells %d octets of RDATA, the record that is read has %s\n  text: %s\n  read as: %s\n  octets spelled: %s\n  octets read:    %s",
 			tn, len(all), what, short(text), short(rr.String()), hx(all), hx(got))
 	}
 	pbt.Class("kept-octet-for-octet")
 	return nil
+}
+
+// canonicalRdata: the independent decoder reads rdata as well-formed, canonically encoded RDATA of r's type.
+func canonicalRdata(owner []byte, r wm.Rec, rdata []byte) bool {
+	msg := append([]byte{0, 0, 0, 0, 0, 0, 0, 1, 0, 0, 0, 0}, owner...)
+	msg = binary.BigEndian.AppendUint16(msg, r.Type)
+	msg = binary.BigEndian.AppendUint16(msg, r.Class)
+	msg = binary.BigEndian.AppendUint32(msg, r.TTL)
+	msg = binary.BigEndian.AppendUint16(msg, uint16(len(rdata)))
+	msg = append(msg, rdata...)
+	_, err := wm.Decode(msg, nil)
+	return err == nil
 }
 
 func genSurplus(t *rapid.T) surplusCase {
